@@ -129,30 +129,30 @@ type Replica struct {
 
 // Counters of a case, for labels and non-trivial rules.
 type CaseStats struct {
-	Steps, Readies                           int
-	Ticks, Delivered, Dropped, Dupped        int
-	Reordered                                int
-	Proposals, ConfProposals                 int
-	ConfApplied                              map[pb.ConfChangeType]int
-	Promotions                               int
-	Campaigns, Transfers                     int
-	Crashes, Restarts                        int
-	CrashAt                                  [numCrashPoints]int
-	TornLoss                                 int // crashes that lost unsynced records
-	EngineWiped, EngineKept                  int
-	SnapshotsCreated, SnapshotsInstalled     int
-	Partitions, Heals                        int
-	Reports                                  int
-	PagedHandouts, NoApplySteps, BusySteps   int
-	AsyncConf                                int
-	RaftPanics                               int
-	SelfRemoved                              int
-	VoteMsgLost                              int // dropped or duplicated vote / vote response
-	Truncations                              int // Ready.Entries starting at or below an index already in the log
-	Joiners                                  int
-	MaxTerm                                  uint64
-	SentByNewLeaderBeforePersist             int
-	ExcludedKnown                            int
+	Steps, Readies                         int
+	Ticks, Delivered, Dropped, Dupped      int
+	Reordered                              int
+	Proposals, ConfProposals               int
+	ConfApplied                            map[pb.ConfChangeType]int
+	Promotions                             int
+	Campaigns, Transfers                   int
+	Crashes, Restarts                      int
+	CrashAt                                [numCrashPoints]int
+	TornLoss                               int // crashes that lost unsynced records
+	EngineWiped, EngineKept                int
+	SnapshotsCreated, SnapshotsInstalled   int
+	Partitions, Heals                      int
+	Reports                                int
+	PagedHandouts, NoApplySteps, BusySteps int
+	AsyncConf                              int
+	RaftPanics                             int
+	SelfRemoved                            int
+	VoteMsgLost                            int // dropped or duplicated vote / vote response
+	Truncations                            int // Ready.Entries starting at or below an index already in the log
+	Joiners                                int
+	MaxTerm                                uint64
+	SentByNewLeaderBeforePersist           int
+	ExcludedKnown                          int
 }
 
 type event struct {
@@ -747,8 +747,13 @@ func (s *Sim) SnapInFlight(from, to uint64) bool {
 	return false
 }
 
-// Peek is VerifPeek on a live replica.
-func (s *Sim) Peek(r *Replica) raft.VerifPeekState { return raft.VerifPeek(r.Node) }
+// Peek is VerifPeek on a live replica (zero value for a dead one).
+func (s *Sim) Peek(r *Replica) raft.VerifPeekState {
+	if r == nil || !r.Up || r.Node == nil {
+		return raft.VerifPeekState{}
+	}
+	return raft.VerifPeek(r.Node)
+}
 
 // UpIDs lists live replicas.
 func (s *Sim) UpReps() []*Replica {
